@@ -10,7 +10,8 @@ Require Import ZArith ZifyBool ZifyN ZifyNat.
 Local Open Scope N_scope.
 Ltac Zify.zify_post_hook ::= Z.div_mod_to_equations.
 
-Definition apl_cut (i : apitem) : bytes := takeN (i_prefix i / 8 + 1) (a_oct (i_addr i)).
+(* the address without its trailing zero octets (RFC 3123 section 4) *)
+Definition apl_cut (i : apitem) : bytes := takeN (addr_significant (a_oct (i_addr i))) (a_oct (i_addr i)).
 Definition apl_lenoct (i : apitem) : N :=
   if i_neg i then N.lor (lenN (apl_cut i)) 128 else lenN (apl_cut i).
 Definition apitem_wire (i : apitem) : bytes :=
@@ -31,7 +32,7 @@ Lemma apl_cut_len (i : apitem) : addr_wf (i_addr i) ->
   lenN (apl_cut i) <= fam_size (a_fam (i_addr i)) /\ lenN (apl_cut i) <= 16.
 Proof.
   intros W. destruct (addr_wf_len _ W) as [L F]. unfold apl_cut.
-  pose proof (lenN_takeN_le (i_prefix i / 8 + 1) (a_oct (i_addr i))) as H. rewrite L in H.
+  pose proof (lenN_takeN_le (addr_significant (a_oct (i_addr i))) (a_oct (i_addr i))) as H. rewrite L in H.
   split; [exact H|]. unfold fam_size in H. destruct (a_fam (i_addr i) =? 1); lia.
 Qed.
 
@@ -58,7 +59,8 @@ Proof.
   intros W st. destruct (apl_cut_len i W) as [_ Hc].
   unfold enc_apitem, eu16, eu8. rewrite !ebind_put, !sput_sput.
   unfold ebind at 1. cbn [buf_len]. rewrite ebind_put. unfold ebind.
-  rewrite (emits_address (i_addr i) (i_prefix i)). fold (apl_cut i).
+  rewrite (emits_address (i_addr i) ENC_APL_MINIMUM_LENGTH), ENC_APL_MINIMUM_LENGTH_val, N.max_0_r.
+  fold (apl_cut i).
   set (h := u16b (a_fam (i_addr i)) ++ u8b (i_prefix i)).
   rewrite (set_address_length_index_exact _ (e_buf st ++ h) (0 mod 256) (apl_cut i)).
   - destruct (lenN (apl_cut i) <? 256) eqn:E1; [|lia]. destruct (lenN (apl_cut i) <? 128) eqn:E2; [|lia].
@@ -67,17 +69,17 @@ Proof.
 Qed.
 
 (* ---- decoder ---- *)
-Lemma reads_address (a : addr) (p : N) : addr_wf a -> prefix_ok a p ->
-  reads (rr_address (a_fam a)) (takeN (p / 8 + 1) (a_oct a)) [] a.
+Lemma reads_address (a : addr) (k : N) : addr_wf a -> addr_significant (a_oct a) <= k ->
+  reads (rr_address (a_fam a)) (takeN k (a_oct a)) [] a.
 Proof.
   intros W P s Ws Hr. rewrite app_nil_r in Hr. destruct (addr_wf_len a W) as [L F].
   assert (d_off s <= d_len s) as Hle by (destruct Ws; lia).
   rewrite (rr_address_spec (a_fam a) s Hle F). rewrite Hr.
-  pose proof (lenN_takeN_le (p / 8 + 1) (a_oct a)) as Hlen. rewrite L in Hlen.
-  destruct (fam_size (a_fam a) <? lenN (takeN (p / 8 + 1) (a_oct a))) eqn:E.
+  pose proof (lenN_takeN_le k (a_oct a)) as Hlen. rewrite L in Hlen.
+  destruct (fam_size (a_fam a) <? lenN (takeN k (a_oct a))) eqn:E.
   { apply N.ltb_lt in E. exfalso. apply (N.lt_irrefl (fam_size (a_fam a))).
     eapply N.lt_le_trans; [exact E|exact Hlen]. }
-  rewrite (zero_fill_cut a p W P). eexists. unfold drained, mkst. f_equal. f_equal.
+  rewrite (zero_fill_cut a k W P). eexists. unfold drained, mkst. f_equal. f_equal.
   destruct Ws as [W1 _]. rewrite Hr in W1. rewrite <- W1. apply N.add_comm.
 Qed.
 
@@ -105,7 +107,7 @@ Proof.
   eapply reads_bind; [apply reads_u8_small; exact Hp|].
   eapply reads_bind; [apply reads_u8_small; exact Hlo|].
   cbv zeta. rewrite Hneg, Hlen.
-  eapply reads_bind0; [apply reads_with_sub; unfold apl_cut; apply reads_address; assumption|].
+  eapply reads_bind0; [apply reads_with_sub; unfold apl_cut; apply reads_address; [exact W|apply N.le_refl]|].
   unfold apitem_new. rewrite Hchk. cbn [lift]. eapply reads_value; [|apply reads_ret].
   destruct i; reflexivity.
 Qed.
